@@ -50,6 +50,9 @@ EOF_SPELLINGS = [
 ]
 
 
+SHARED = {}
+
+
 def norm_lines(data):
     return data.replace("\r\n", "\n").replace("\r", "\n").split("\n")
 
@@ -70,6 +73,20 @@ def judge(ctx, case, conforming=False):
     try:
         p = run(False)
         E = list(p.errors)
+        # the same call on a long-lived parser object must record exactly the same errors
+        sp = SHARED.get(kind)
+        if sp is None:
+            sp = SHARED[kind] = html5parser.HTMLParser(h5.tb(kind))
+        try:
+            if frag:
+                sp.parseFragment(data, container=cont)
+            else:
+                sp.parse(data)
+            ctx.count("reused_parser_compared")
+            if list(sp.errors) != E:
+                ctx.violation("errors-differ-on-reused-parser", case, "fresh parser %r, reused parser %r" % (E[:3], list(sp.errors)[:3]))
+        except Exception:
+            SHARED[kind] = None
     except Exception as e:
         ctx.count("nonstrict_raised")  # C03's subject
         ctx.add("nonstrict_exceptions", type(e).__name__)
